@@ -43,6 +43,20 @@ Three further complete sub-products (each described at its section below):
            on the axis - on every TimeAxis of the product  step x window  (AXES): addition
            trees and in-place chains, list-built composites, sums of frequency-domain parts
            and measurement histories, each as a complete sub-product with the axis.
+  DEGENERATE operands with zero reorganisation energy (analytic: vanishing data; value-defined:
+           purely real data), at the common and at another temperature: every '+' tree /
+           in-place chain containing one, refusals, measurement histories with every
+           mutation route.
+  FREQAXES spectral densities defined directly on a FrequencyAxis that need not be symmetric
+           around w = 0 (one-sided, short / long negative branch, with / without the point
+           w = 0) x grid: addition trees, in-place chains and measurement histories; the
+           reorganisation energy recovered from the data against an independent reference
+           (mc/refmodels/reorg_integral.py: the part of the integral the axis covers).
+  CONVERT  composite spectral densities (every route, every assignment of declared
+           temperatures to the components) x histories of conversion requests
+           get_CorrelationFunction([temperature]): refusal of different temperatures at every
+           request, temperature bookkeeping / data of the result, the spectral density and its
+           operands unchanged by a request.
 """
 import itertools
 
@@ -71,7 +85,20 @@ CF_LEAVES = {
     "o": dict(ftype="OverdampedBrownian_from_Specdens", reorg=20.0, cortime=50.0, T=300.0),
     # list-built composites only: another type with the correlation time of "a"
     "e": dict(ftype="OverdampedBrownian-HighTemperature", reorg=12.0, cortime=50.0, T=300.0),
+    # DEGENERATE operands (sub-product DEGENERATE): components with zero reorganisation energy.
+    # "n": analytic, data identically zero, but the LONGEST correlation (cut-off) time of the
+    # alphabet; "r": value-defined, purely real data (a classical correlation function: Im C = 0,
+    # hence reorganisation energy 0, Re C != 0); "m", "t": the same two kinds at another
+    # temperature
+    "n": dict(ftype="OverdampedBrownian", reorg=0.0, cortime=200.0, T=300.0, matsubara=20),
+    "r": "value-defined",
+    "m": dict(ftype="OverdampedBrownian-HighTemperature", reorg=0.0, cortime=100.0, T=77.0),
+    "t": "value-defined",
 }
+# value-defined leaves: declared reorganisation energy (1/cm), temperature, kind of data
+VALUE_LEAVES = {"v": dict(reorg=15.0, T=300.0, real=False),
+                "r": dict(reorg=0.0, T=300.0, real=True),
+                "t": dict(reorg=0.0, T=77.0, real=True)}
 SD_LEAVES = {
     "a": dict(ftype="OverdampedBrownian", reorg=20.0, cortime=50.0, T=300.0),
     "b": dict(ftype="UnderdampedBrownian", reorg=35.0, gamma=30.0, freq=300.0, T=300.0),
@@ -83,7 +110,12 @@ SD_LEAVES = {
     "x": dict(ftype="B777", reorg=102.0, gamma=30.0, T=300.0, alternative_form=False),
     "o": dict(ftype="OverdampedBrownian_from_Specdens", reorg=20.0, cortime=50.0, T=300.0),
     "h": dict(ftype="OverdampedBrownian-HighTemperature", reorg=35.0, cortime=100.0, T=300.0),
+    # DEGENERATE operands: zero reorganisation energy (data identically zero)
+    "n": dict(ftype="OverdampedBrownian", reorg=0.0, cortime=200.0, T=300.0),
+    "g": dict(ftype="UnderdampedBrownian", reorg=0.0, gamma=30.0, freq=300.0, T=300.0),
 }
+# leaves with zero declared reorganisation energy
+DEGENERATE = {"cf": ["n", "r", "m", "t"], "sd": ["n", "g"]}
 ENERGY_KEYS = ("reorg", "freq", "gamma")
 NT, DT = 1500, 1.0
 
@@ -113,13 +145,51 @@ def axes(tier):
     return out
 
 
+# FREQUENCY-AXIS dimension (sub-product FREQAXES).  A SpectralDensity can be defined directly on
+# a user-supplied FrequencyAxis; nothing says that such an axis is symmetric around w = 0 (the
+# axes derived from a TimeAxis are: -N dw .. (N-1) dw, with the point w = 0).  A case carries
+# "faxis": [kind, n, dw]: the positive branch has n points up to about n*dw; the kinds are the
+# product  {negative branch: as long as the positive one / one eighth of it / absent / twice as
+# long}  x  {grid contains the point w = 0 / is shifted by half a step}.
+FAXIS_KINDS = {   # kind: (points of the negative branch as a multiple of n, offset in steps)
+    "symmetric-with-zero": (1.0, 0.0), "symmetric-without-zero": (1.0, 0.5),
+    "one-sided-from-zero": (0.0, 0.0), "one-sided-above-zero": (0.0, 0.5),
+    "short-negative-branch-with-zero": (0.125, 0.0),
+    "short-negative-branch-without-zero": (0.125, 0.5),
+    "long-negative-branch-with-zero": (2.0, 0.0), "long-negative-branch-without-zero": (2.0, 0.5),
+}
+FAXIS_QUICK_KINDS = ["symmetric-with-zero", "symmetric-without-zero", "one-sided-from-zero",
+                     "one-sided-above-zero", "short-negative-branch-with-zero",
+                     "short-negative-branch-without-zero"]
+# (n, dw): wmax = n*dw = 1.5 rad/fs (about 8000 1/cm) and 2.25 rad/fs
+FAXIS_GRIDS = {"quick": [[750, 0.002], [1500, 0.001]],
+               "thorough": [[750, 0.002], [1500, 0.001], [1500, 0.0015], [3000, 0.0005]]}
+
+
+def faxes(tier):
+    kinds = FAXIS_QUICK_KINDS if tier == "quick" else list(FAXIS_KINDS)
+    return [[k, n, dw] for n, dw in FAXIS_GRIDS[tier] for k in kinds]
+
+
+def freq_axis(spec):
+    kind, n, dw = spec[0], int(spec[1]), float(spec[2])
+    neg, off = FAXIS_KINDS[kind]
+    nneg = int(round(neg * n))
+    return isolation.qr().FrequencyAxis((-nneg + off) * dw, nneg + n, dw)
+
+
 def axis_of(case):
+    if case.get("faxis"):
+        return freq_axis(case["faxis"])
     n, dt = case.get("axis") or (NT, DT)
     return isolation.qr().TimeAxis(0.0, int(n), float(dt))
 
 
 def axis_suffix(case):
     """Key suffix of a case on another than the original axis."""
+    if case.get("faxis"):
+        k, n, dw = case["faxis"]
+        return "/frequency-axis-%s-step-%g-points-%d" % (k, float(dw), int(n))
     a = case.get("axis")
     if not a or (int(a[0]), float(a[1])) == (NT, DT):
         return ""
@@ -140,10 +210,14 @@ def cf_measure_tolerance(names, ta):
     h = float(ta.step)
     tot, err = 0.0, 0.0
     for n in names:
+        if declared_reorg("cf", n) == 0.0:
+            continue        # data without an imaginary part: nothing to integrate
         sp = CF_LEAVES[n]
         tot += sp["reorg"]
         err += sp["reorg"] * (numpy.exp(-t_last / sp["cortime"])
                               + (h / sp["cortime"]) ** 2 / 12.0)
+    if tot == 0.0:
+        return 0.0
     return min(1e-3, err / tot + 1e-10)
 
 # Alphabets.  CORE: the leaves the driver has always enumerated (+ UnderdampedBrownian for the
@@ -172,6 +246,17 @@ def ftype_of(cls, name):
     return sp["ftype"] if isinstance(sp, dict) else "Value-defined"
 
 
+def is_value(cls, name):
+    return cls == "cf" and name in VALUE_LEAVES
+
+
+def declared_reorg(cls, name):
+    """Declared reorganisation energy of a leaf in 1/cm."""
+    if is_value(cls, name):
+        return VALUE_LEAVES[name]["reorg"]
+    return spec_of(cls, name)["reorg"]
+
+
 def _conv(val, unit):
     qr = isolation.qr()
     return float(qr.convert(val, "1/cm", to=unit))
@@ -193,14 +278,19 @@ def make_leaf(cls, name, unit, ta, T=None):
     """Build one leaf under energy_units(unit), its parameters given in that unit."""
     qr = isolation.qr()
     if cls == "cf":
-        spec = CF_LEAVES[name]
-        if spec == "value-defined":
+        if name in VALUE_LEAVES:
+            vl = VALUE_LEAVES[name]
             t = ta.data
-            vals = (3e-5 * numpy.exp(-t / 80.0) * numpy.cos(t / 37.0)
-                    - 1j * 2e-5 * numpy.exp(-t / 60.0))
+            if vl["real"]:
+                # a classical correlation function: no imaginary part
+                vals = (2e-5 * numpy.exp(-t / 250.0) * numpy.cos(t / 40.0)) + 0j
+            else:
+                vals = (3e-5 * numpy.exp(-t / 80.0) * numpy.cos(t / 37.0)
+                        - 1j * 2e-5 * numpy.exp(-t / 60.0))
             with qr.energy_units(unit):
                 return qr.CorrelationFunction(ta, dict(ftype="Value-defined",
-                                                       reorg=_conv(15.0, unit), T=300.0),
+                                                       reorg=_conv(vl["reorg"], unit),
+                                                       T=vl["T"] if T is None else float(T)),
                                               values=vals)
         p = params_of(cls, name, unit, T)
         with qr.energy_units(unit):
@@ -229,7 +319,8 @@ def ledger(cls, name, unit, ta, T=None):
     """The component `name` built on its own inside energy_units(unit).  Construction is a
     deterministic function of (class, parameters, unit, time axis), so the record
     is kept per worker process (records are never handed to the library)."""
-    key = (cls, name, unit, T, int(ta.length), float(ta.step))
+    key = (cls, name, unit, T, type(ta).__name__, float(ta.start), int(ta.length),
+           float(ta.step))
     if key not in _LEDGER:
         _LEDGER[key] = Comp(make_leaf(cls, name, unit, ta, T))
     return _LEDGER[key]
@@ -264,7 +355,7 @@ def check_leaf(cls, name, unit, f, ta, viol):
         viol.append(("component-reorganisation-energy-depends-on-construction-context/" + tag,
                      "lamb %r, built in internal units %r" % (float(f.lamb), ref.lamb), None))
     spec = spec_of(cls, name)
-    decl = dict(reorg=15.0) if not isinstance(spec, dict) else spec
+    decl = dict(reorg=declared_reorg(cls, name)) if not isinstance(spec, dict) else spec
     if len(f.params) != 1:
         viol.append(("component-parameter-list-length/" + tag,
                      "%d parameter sets recorded for a single component" % len(f.params), None))
@@ -379,9 +470,7 @@ def eval_tree(case):
     built = built_leaves(tree)
     units = leaf_units(case, len(built))
     ustr = ",".join(units)
-    special = sorted(set(ftype_of(cls, n) for n in built
-                         if n in EXT[cls] or n in OPTIONAL[cls]))
-    suffix = "/with-" + "+".join(special) if special else ""
+    suffix = _special_suffix(cls, built)
 
     def done(res):
         res["violations"] = _finish(viol, suffix, axis_suffix(case))
@@ -452,7 +541,7 @@ def eval_tree(case):
                      None))
     with qr.energy_units("1/cm"):
         declared = float(res.get_reorganization_energy())
-    decl_exp = sum(15.0 if n == "v" else spec_of(cls, n)["reorg"] for n in lv)
+    decl_exp = sum(declared_reorg(cls, n) for n in lv)
     if abs(declared - decl_exp) > 1e-6 * decl_exp:
         viol.append(("declared-reorganisation-energy/%s" % variant,
                      "%s: get_reorganization_energy() = %r 1/cm, declared sum %r"
@@ -469,8 +558,16 @@ def eval_tree(case):
                          "%s: recorded components %r, added %r" % (where, got, exp), None))
     if cls == "cf" and float(res.temperature) != 300.0:
         viol.append(("temperature-of-sum/%s" % variant, "temperature %r" % res.temperature, None))
+    if cls == "cf":
+        # the cut-off time of a composite is the longest one of its components, whatever their
+        # reorganisation energies are
+        want = max(c.cutoff_time for c in comps)
+        if abs(float(res.cutoff_time) - want) > 1e-9 * abs(want):
+            viol.append(("cutoff-time-of-sum/%s" % variant,
+                         "%s: cut-off time %r, the longest one of the components is %r"
+                         % (where, float(res.cutoff_time), want), None))
     # the component list regenerates the same function (carries consistent parameters)
-    if "v" not in lv:
+    if not any(is_value(cls, n) for n in lv):
         own_now = numpy.array(res.data, copy=True)
         for cctx in ([None, addctx] if addctx else [None]):
             ctag = "" if cctx is None else "/copy-in-%s" % cctx
@@ -500,7 +597,8 @@ def eval_tree(case):
                              "%s: copy().lamb %r, original %r"
                              % (where, float(cp.lamb), float(res.lamb)), None))
     # measured vs declared reorganisation energy, parities of the FT parts (analytic only)
-    if cls == "cf" and "v" not in lv and case.get("deep"):
+    if cls == "cf" and case.get("deep") and decl_exp > 0.0 \
+            and not any(is_value(cls, n) for n in lv):
         with qr.energy_units("1/cm"):
             meas = float(res.measure_reorganization_energy())
         tolq = cf_measure_tolerance(lv, ta)
@@ -530,8 +628,16 @@ def eval_tree(case):
                     viol.append(("ft-part-parity/%s/%s" % (nm, kind),
                                  "%s: %s FT part deviates from %s parity by %g (scale %g)"
                                  % (tree_str(tree), nm, nm, dev, sc), None))
+    if cls == "sd" and case.get("faxis") and decl_exp > 0.0:
+        # the reorganisation energy recovered from the data on the user-supplied axis
+        meas = float(res.measure_reorganization_energy())
+        check_sd_measured(meas, lv, ta, viol, "sum", where)
+        again = float(res.measure_reorganization_energy())
+        if again != meas:
+            viol.append(("second-measurement-differs/sd/on-frequency-axis",
+                         "%s: measured %r, measured again %r" % (where, meas, again), None))
     return done({"nontrivial": len(lv) >= 2,
-                 "outcome": [tree_str(tree), ustr, addctx, case.get("axis"),
+                 "outcome": [tree_str(tree), ustr, addctx, case.get("axis") or case.get("faxis"),
                              round(float(res.lamb), 9),
                              round(float(numpy.abs(numpy.asarray(res.data)).sum()), 9)]})
 
@@ -570,6 +676,8 @@ def _cls(cls):
 def _special_suffix(cls, names):
     special = sorted(set(ftype_of(cls, n) for n in names
                          if n in EXT[cls] or n in OPTIONAL[cls]))
+    if any(n in DEGENERATE[cls] for n in names):
+        special.append("zero-reorganisation-energy-operand")
     return "/with-" + "+".join(special) if special else ""
 
 
@@ -926,6 +1034,57 @@ def _sd_expected_measured(names, ta):
     return tot
 
 
+SD_MEASURE_TOL = 2e-3
+# user-supplied frequency axes (reference model instead of the declared value): class Q; worst
+# deviation observed on the reference tree 6.8e-5 (UnderdampedBrownian, 3 points per line
+# width); the smallest effect it has to resolve: 1.2e-2 (short negative branch)
+FAXIS_MEASURE_TOL = 5e-4
+
+
+def sd_reference_measured(names, fa):
+    """Reorganisation energy (internal units) that the data of the sum of the components
+    `names` on the FrequencyAxis fa can contain: (1/pi) int J(w)/w dw over the part of
+    [0, infinity) the axis covers, from the reference model (analytic formulas, closed form /
+    adaptive quadrature).  Returns (whole, covered, lo_whole, lo_covered, hi):
+      whole    over [max(0, first point of the axis), last point];
+      covered  over [max(0, first NON-ZERO point), last point]: equal to `whole` unless w = 0
+               is the very first point of the axis (J(w)/w is a limit there; the point has a
+               neighbour on one side only)."""
+    from mc.refmodels.reorg_integral import reorg_on_interval
+    w = numpy.asarray(fa.data, dtype=float)
+    hi = float(w[-1])
+    lo_whole = max(0.0, float(w[0]))
+    nz = w[w != 0.0]
+    lo_cov = max(0.0, float(nz[0]))
+    plist = [params_of("sd", n, "int") for n in names]
+    return (reorg_on_interval(plist, lo_whole, hi), reorg_on_interval(plist, lo_cov, hi),
+            lo_whole, lo_cov, hi)
+
+
+def check_sd_measured(meas, names, fa, viol, what, where):
+    """measured == the part of the declared reorganisation energy that lies on the axis
+    (class Q, FAXIS_MEASURE_TOL)."""
+    whole, cov, lo_w, lo_c, hi = sd_reference_measured(names, fa)
+    if abs(meas - whole) <= FAXIS_MEASURE_TOL * abs(whole):
+        return
+    declared = sum(_conv(SD_LEAVES[n]["reorg"], "int") for n in names)
+    if lo_c != lo_w and abs(meas - cov) <= FAXIS_MEASURE_TOL * abs(cov):
+        viol.append(("measured-reorganisation-energy/sd/on-frequency-axis/"
+                     "interval-from-zero-to-the-first-non-zero-point-not-integrated/%s" % what,
+                     "%s on FrequencyAxis(%g, %d, %g): measured %r = the integral of J(w)/w "
+                     "over [%g, %g] only (%r); the axis covers [0, %g], which holds %r "
+                     "(declared: %r); relative loss %.3g"
+                     % (where, float(fa.start), fa.length, float(fa.step), meas, lo_c, hi, cov,
+                        hi, whole, declared, 1.0 - meas / whole), None))
+        return
+    viol.append(("measured-reorganisation-energy/sd/on-frequency-axis/%s" % what,
+                 "%s on FrequencyAxis(%g, %d, %g): measured %r, but (1/pi) int J(w)/w dw "
+                 "over the part [%g, %g] of the positive half line that the axis covers is %r "
+                 "(declared: %r; tolerance %.2g)"
+                 % (where, float(fa.start), fa.length, float(fa.step), meas, lo_w, hi, whole,
+                    declared, FAXIS_MEASURE_TOL), None))
+
+
 def _measure(cls, x, ctx, names, ta, viol, where, full=True):
     """One measurement of x in the context ctx with all oracles; full=False: without
     reorganization_energy_consistent()."""
@@ -943,17 +1102,28 @@ def _measure(cls, x, ctx, names, ta, viol, where, full=True):
                                                      T=300.0), values=data)
         with qr.energy_units(ctx):
             mref = float(holder.measure_reorganization_energy())
-        want = _conv(sum(CF_LEAVES[n]["reorg"] for n in names), ctx)
+        want = _conv(sum(declared_reorg("cf", n) for n in names), ctx)
         tolq = cf_measure_tolerance(names, ta)
+        if want == 0.0:
+            cons = True     # 0/0 in the library's relative test; measured == 0 is checked here
     else:
         meas = float(x.measure_reorganization_energy())
         holder = qr.SpectralDensity(x.axis, [dict(ftype="Value-defined", reorg=lam, T=300.0)],
                                     values=data)
         mref = float(holder.measure_reorganization_energy())
-        want = _sd_expected_measured(names, ta)
-        tolq = 2e-3
+        on_faxis = isinstance(ta, qr.FrequencyAxis)
+        want = None if on_faxis else _sd_expected_measured(names, ta)
+        tolq = SD_MEASURE_TOL
     tag = "%s/measured-in-%s" % (cls, ctx)
-    if not abs(meas - want) <= tolq * abs(want):
+    if want is None:
+        # spectral density on a user-supplied frequency axis: reference model
+        if sum(SD_LEAVES[n]["reorg"] for n in names) > 0.0:
+            check_sd_measured(meas, names, ta, viol, "history", where)
+        elif meas != 0.0:
+            viol.append(("measured-reorganisation-energy/sd/on-frequency-axis/history",
+                         "%s: measured %r for identically vanishing data" % (where, meas),
+                         None))
+    elif not abs(meas - want) <= tolq * abs(want):
         viol.append(("measured-reorganisation-energy/history/%s" % tag,
                      "%s on TimeAxis(0, %d, %g): measured %r, declared %r (units: %s; "
                      "tolerance %.2g)" % (where, ta.length, ta.step, meas, want, ctx, tolq),
@@ -1079,34 +1249,51 @@ def eval_measure(case):
                          "%s: measured %r, measured again %r" % (hs, first[ctx], again), None))
     last = first["int"]
     return {"nontrivial": len(steps) >= 1, "violations": _finish(viol, "", axis_suffix(case)),
-            "outcome": [hs, case["operand_measured"], case.get("axis"),
+            "outcome": [hs, case["operand_measured"], case.get("axis") or case.get("faxis"),
                         round(float(last) * 1e6, 6)]}
 
 
-def _histories(cls, starts, leaves, kmax):
-    mflags = [0] + MEAS_CTX[cls]
+def _hist_admissible(cls, ops):
+    """value-defined functions only as right-hand operands: once one was added, the object
+    cannot be rebuilt from its parameter list (x = x + y, x += x rebuild x)."""
+    valued = False
+    for op, y in ops:
+        if valued and op in ("plus", "iadd-self"):
+            return False
+        valued = valued or is_value(cls, y)
+    return True
+
+
+def _histories(cls, starts, leaves, kmax, intermediate=True):
+    """intermediate=False: no measurements between the steps (only after the last one)."""
+    mflags = ([0] + MEAS_CTX[cls]) if intermediate else [0]
     choices = [[op, y] for op in MEAS_OPS for y in leaves] + [["iadd-self", None],
                                                                      ["add_to_data-self", None]]
     for st in starts:
         for k in range(0, kmax + 1):
             for ops in itertools.product(choices, repeat=k):
+                if not _hist_admissible(cls, ops):
+                    continue
                 for ms in itertools.product(mflags, repeat=k):
                     yield st, [[o[0], o[1], m] for o, m in zip(ops, ms)]
 
 
-def _plan_cases(plan, axis=None):
+def _plan_cases(plan, axis=None, classes=("cf", "sd"), faxis=None):
     """Measurement histories of a plan [(starts, operand leaves, max steps, operand measured
-    before use?)] for both classes, on one time axis."""
+    before use?)] for the classes, on one time axis (or frequency axis: spectral density)."""
     cs = []
-    for cls in ("cf", "sd"):
+    for cls in classes:
         have = set()
-        for starts, leaves, kmax, opms in plan:
-            for st, steps in _histories(cls, starts, leaves, kmax):
+        for entry in plan:
+            starts, leaves, kmax, opms = entry[:4]
+            for st, steps in _histories(cls, starts, leaves, kmax, *entry[4:]):
                 for opm in opms:
                     c = {"kind": "measure", "cls": cls, "start": st, "steps": steps,
                          "operand_measured": opm}
                     if axis is not None:
                         c["axis"] = axis
+                    if faxis is not None:
+                        c["faxis"] = faxis
                     k = hist_str(c) + str(opm)
                     if k not in have:
                         have.add(k)
@@ -1187,7 +1374,334 @@ def timeaxis_cases(tier):
     return cs
 
 
-KINDS = {"list": eval_list, "ftsum": eval_ftsum, "measure": eval_measure}
+# =====================================================================================
+# Sub-product DEGENERATE: operands with zero reorganisation energy
+# =====================================================================================
+# A component whose reorganisation energy is zero is a legal operand: an analytic one has
+# identically vanishing data ("n"; it still has a temperature, a correlation / cut-off time and
+# an entry in the component list), a value-defined one may have purely real data ("r": a
+# classical correlation function).  Everything the statement says about a sum holds for them:
+# data (the real part of "r" is added), reorganisation energy, component list, cut-off time
+# (the longest one - "n" has the longest of the alphabet), refusal at different temperatures
+# ("m", "t": the same kinds at 77 K).
+#   TREES    every '+' tree / in-place chain with <= 3 leaves over {a, b} + degenerate leaves
+#            that contains a degenerate leaf (every position, both operand roles) x construction
+#            units (as in the main section) x context of the additions
+#   REFUSAL  every tree with <= 3 leaves / in-place pair over {a, b, m, t} that mixes the two
+#            temperatures
+#   MEASURE  every measurement history with <= 2 mutation steps (every route: +=, add_to_data,
+#            add_to_data2, x = x + y, self-additions) whose operands are degenerate leaves
+#            (quick: measurements between the steps for one-step histories only)
+# All oracles are those of the main sections (ledger of separately built components).
+DEG_ALPHA = {"quick": {"cf": ["a", "b", "n", "r"], "sd": ["a", "b", "n"]},
+             "thorough": {"cf": ["a", "b", "n", "r"], "sd": ["a", "b", "n", "g"]}}
+
+
+def deg_unit_patterns(tier, n):
+    """Construction units of the leaves: complete per-leaf product up to two leaves; three
+    leaves: every uniform unit (quick), + every rotation of the unit list (thorough)."""
+    U = UNITS[tier]
+    if n <= 2:
+        return [list(c) for c in itertools.product(U, repeat=n)]
+    pats = [[u] * n for u in U]
+    if tier == "thorough":
+        pats += [[U[(r + i) % len(U)] for i in range(n)] for r in range(1, len(U))]
+    return pats
+
+
+def degenerate_cases(tier):
+    cs = []
+    for cls in ("cf", "sd"):
+        deg = DEGENERATE[cls]
+        for t in expressions(DEG_ALPHA[tier][cls], 3, tier):
+            lv = leaves_of(t)
+            if not any(x in deg for x in lv):
+                continue
+            for pat in deg_unit_patterns(tier, len(built_leaves(t))):
+                for addctx in (None, "1/cm"):
+                    if len(lv) == 1 and addctx:
+                        continue
+                    deep = (addctx is None and all(u == "1/cm" for u in pat)
+                            and all(x in ("a", "b", "n", "self") for x in lv))
+                    cs.append({"cls": cls, "tree": t, "leaf_units": pat, "add_ctx": addctx,
+                               "deep": deep})
+        if cls == "cf":
+            cold = ("m", "t")
+            for n in (2, 3):
+                for t in all_trees(["a", "b", "m", "t"], n):
+                    lv = leaves_of(t)
+                    if admissible(t) and any(x in cold for x in lv) \
+                            and not all(x in cold for x in lv):
+                        cs.append({"cls": cls, "tree": t, "leaf_units": "1/cm",
+                                   "add_ctx": None})
+            for x, y in itertools.permutations(["a", "b", "m", "t"], 2):
+                t = ["+=", x, y]
+                if admissible(t) and (x in cold) != (y in cold):
+                    cs.append({"cls": cls, "tree": t, "leaf_units": "1/cm", "add_ctx": None})
+    cs.sort(key=lambda c: (len(leaves_of(c["tree"])), c["add_ctx"] is not None))
+    for cls, ops in (("cf", ["n", "r"]), ("sd", ["n", "g"])):
+        if tier == "quick":
+            # one step with every measurement in between, two steps without
+            plan = [(MEAS_STARTS, ops, 1, (False,)), (MEAS_STARTS, ops, 2, (False,), False)]
+        else:
+            plan = [(MEAS_STARTS, ops, 2, (False, True))]
+        cs += _plan_cases(plan, classes=(cls,))
+    return cs
+
+
+# =====================================================================================
+# Sub-product FREQAXES: spectral densities defined directly on a frequency axis
+# =====================================================================================
+# Every frequency axis of faxes(tier) (see FAXIS_KINDS: symmetric / one-sided / short / long
+# negative branch x with / without the point w = 0, x grid) x
+#   TREES    every '+' tree / in-place chain with <= 3 leaves over the core alphabet: all
+#            oracles of the addition trees (data, reorganisation energy, component list, copy)
+#            on that axis, and the reorganisation energy recovered from the data of the result
+#            == the part of the declared one that lies on the axis (reference model
+#            mc/refmodels/reorg_integral.py), measured twice
+#   MEASURE  every measurement history with <= 1 (quick) / <= 2 (thorough) mutation steps.
+def freqaxis_cases(tier):
+    q = tier == "quick"
+    cs = []
+    for fx in faxes(tier):
+        for t in expressions(CORE["sd"], 3, tier):
+            nb = len(built_leaves(t))
+            cs.append({"cls": "sd", "tree": t, "leaf_units": ["1/cm"] * nb, "add_ctx": None,
+                       "faxis": fx})
+        cs += _plan_cases([(MEAS_STARTS, ["a", "b"], 1 if q else 2, (False,)),
+                           (MEAS_STARTS, ["a", "b"], 1, (True,))], classes=("sd",), faxis=fx)
+
+    def size(c):
+        if c.get("kind") == "measure":
+            return (1 + len(c["steps"]), 0)
+        return (len(leaves_of(c["tree"])), 1)
+    cs.sort(key=size)
+    return cs
+
+
+# =====================================================================================
+# Sub-product CONVERT: temperature bookkeeping of composite spectral densities that are
+# converted to correlation functions
+# =====================================================================================
+# A spectral density does not depend on temperature, so sums of spectral densities whose
+# components DECLARE different temperatures exist; the temperature clause of the property is
+# decided when such a composite becomes a correlation function:
+#   s.get_CorrelationFunction()               components at different temperatures: refused
+#   s.get_CorrelationFunction(temperature=T)  every component is taken at T
+# Product: every composite with <= 3 components over CONV_ALPHA built by every route ('+'
+# tree, in-place chain, list of parameter dictionaries) x every assignment of the temperatures
+# LIST_T to the components x every history of <= 2 (quick) / <= 3 (thorough) conversion
+# requests, each without a temperature or with an explicit one.
+# Oracle (the DECLARED temperatures are those given at construction; a request does not
+# change a spectral density), after every request:
+#   * no temperature given and declared temperatures differ: refused; otherwise accepted;
+#   * the correlation function has the temperature of the request (or the common declared
+#     one) in .temperature and in every entry of its component list, as many components as
+#     were added, the reorganisation energy of the sum, and data equal to the sum of the
+#     separately built and separately converted components' data (at that temperature);
+#   * the spectral density - data, reorganisation energy, component list INCLUDING the declared
+#     temperatures - and the operand objects it was added from are what they were.
+# Keys of requests that follow a request which changed the declared temperatures start with
+# sd-conversion/after-declared-temperatures-changed/ (consequences of that change).
+CONV_ALPHA = {"quick": ["a", "b"], "thorough": ["a", "b", "c"]}
+CONV_T = 200.0
+
+
+def _conv_build(tree, temps, ta, counter, objs):
+    """Evaluate a tree on spectral densities; leaf i is built with the temperature temps[i]."""
+    if isinstance(tree, str):
+        i = counter[0]
+        counter[0] += 1
+        f = make_leaf("sd", tree, "1/cm", ta, T=temps[i])
+        objs.append(f)
+        return f, [i]
+    op, l, r = tree
+    L, il = _conv_build(l, temps, ta, counter, objs)
+    if op == "+=" and r == "self":
+        L += L
+        return L, il + il
+    R, ir = _conv_build(r, temps, ta, counter, objs)
+    if op == "+":
+        return L + R, il + ir
+    L += R
+    return L, il + ir
+
+
+_CONVERTED = {}
+
+
+def converted_ledger(name, T, ta):
+    """Data of the component `name` built on its own and converted on its own at T."""
+    key = (name, float(T), int(ta.length), float(ta.step))
+    if key not in _CONVERTED:
+        f = make_leaf("sd", name, "1/cm", ta, T=float(T))
+        _CONVERTED[key] = numpy.array(f.get_CorrelationFunction(temperature=float(T)).data,
+                                      copy=True)
+    return _CONVERTED[key]
+
+
+def conv_str(case):
+    b = case["build"]
+    ts = case["temps"]
+    if b[0] == "list":
+        s_ = "SpectralDensity([" + ", ".join("%s@%gK" % (n, T) for n, T in zip(b[1], ts)) + "])"
+    else:
+        it = iter(ts)
+
+        def f(t):
+            if t == "self":
+                return "<self>"
+            if isinstance(t, str):
+                return "%s@%gK" % (t, next(it))
+            l_ = f(t[1])
+            return "(%s%s%s)" % (l_, t[0], f(t[2]))
+        s_ = f(b[1])
+    return "s=%s; " % s_ + "; ".join(
+        "s.get_CorrelationFunction(%s)" % ("" if r is None else "temperature=%g" % r)
+        for r in case["requests"])
+
+
+def eval_convert(case):
+    qr = isolation.qr()
+    ta = axis_of(case)
+    viol = []
+    b, temps, requests = case["build"], [float(T) for T in case["temps"]], case["requests"]
+    hs = conv_str(case)
+    objs = []
+    if b[0] == "list":
+        names = list(b[1])
+        with qr.energy_units("1/cm"):
+            s = qr.SpectralDensity(ta, [params_of("sd", n, "1/cm", T)
+                                        for n, T in zip(names, temps)])
+        idx = list(range(len(names)))
+    else:
+        s, idx = _conv_build(b[1], temps, ta, [0], objs)
+        names = built_leaves(b[1])
+    comp_names = [names[i] for i in idx]
+    declared = [temps[i] for i in idx]
+    route = b[0] if b[0] == "list" else ("in-place" if "+=" in tree_str(b[1]) else "tree")
+    got = [float(p.get("T", -1.0)) for p in s.params]
+    if got != declared:
+        viol.append(("sd-conversion/declared-temperatures-of-composite/%s" % route,
+                     "%s: the components of the composite declare %r, they were built with %r"
+                     % (hs, got, declared), None))
+        return {"nontrivial": True, "violations": _finish(viol, "", axis_suffix(case)),
+                "outcome": ["declared-differ", hs]}
+    exp_lamb = sum(ledger("sd", n, "1/cm", ta).lamb for n in comp_names)
+    snap_data = numpy.array(s.data, copy=True)
+    snap_lamb = float(s.lamb)
+    # the operand objects other than the composite itself (the target of an in-place chain is
+    # the composite)
+    objs = [o for o in objs if o is not s]
+    snap_ops = [[float(p.get("T", -1.0)) for p in o.params] for o in objs]
+    mixed = len(set(declared)) > 1
+    changed = False
+    outs = []
+    for k, req in enumerate(requests):
+        pre = "sd-conversion/after-declared-temperatures-changed/" if changed \
+            else "sd-conversion/"
+        rq = "request-without-temperature" if req is None else "request-with-temperature"
+        nth = "%s-request" % ("first", "second", "third")[k]
+        where = "%s [%s]" % (hs, nth)
+        cf = None
+        try:
+            cf = s.get_CorrelationFunction() if req is None \
+                else s.get_CorrelationFunction(temperature=float(req))
+        except Exception as e:
+            err = str(e)[:80]
+        if req is None and mixed:
+            if cf is not None:
+                viol.append((pre + "different-temperatures-accepted/%s/%s" % (route, nth),
+                             "%s: the components declare the temperatures %r; the composite "
+                             "was converted to a correlation function at %r K (component "
+                             "temperatures %r)"
+                             % (where, declared, getattr(cf, "temperature", None),
+                                [p.get("T") for p in cf.params]), None))
+            outs.append("refused" if cf is None else "accepted-different-T")
+        elif cf is None:
+            viol.append((pre + "admissible-conversion-refused/%s/%s" % (route, rq),
+                         "%s raised: %s" % (where, err), None))
+            outs.append("refused-admissible")
+        else:
+            T = float(req) if req is not None else declared[0]
+            if float(cf.temperature) != T:
+                viol.append((pre + "temperature-of-converted/%s/%s" % (route, rq),
+                             "%s: correlation function at %r K, expected %r K (declared %r)"
+                             % (where, cf.temperature, T, declared), None))
+            pts = [p.get("T") for p in cf.params]
+            if len(pts) != len(declared):
+                viol.append((pre + "component-list-length-of-converted/%s" % route,
+                             "%s: %d components recorded, the spectral density has %d"
+                             % (where, len(pts), len(declared)), None))
+            elif any(x is None or float(x) != T for x in pts):
+                viol.append((pre + "component-temperatures-of-converted/%s/%s" % (route, rq),
+                             "%s: component temperatures %r of a correlation function at %r K"
+                             % (where, pts, T), None))
+            if abs(float(cf.lamb) - exp_lamb) > 1e-10 * abs(exp_lamb):
+                viol.append((pre + "reorganisation-energy-of-converted/%s" % route,
+                             "%s: lamb %r, sum of the components %r"
+                             % (where, float(cf.lamb), exp_lamb), None))
+            ref = None
+            for n in comp_names:
+                d = converted_ledger(n, T, ta)
+                ref = numpy.array(d, copy=True) if ref is None else ref + d
+            ok, e_ = approx(cf.data, ref, TOL)
+            if not ok:
+                viol.append((pre + "converted-data-not-sum-of-converted-components/%s/%s"
+                             % (route, rq),
+                             "%s: data differ from the sum of the separately converted "
+                             "components at %g K by %g (scale %g)"
+                             % (where, T, e_, float(numpy.max(numpy.abs(ref)))), {"err": e_}))
+            outs.append(["converted", T, round(float(numpy.abs(cf.data).sum()) * 1e3, 9)])
+        # the spectral density and the operands after the request
+        how = "by-refused-request" if cf is None else "by-" + rq
+        now = [float(p.get("T", -1.0)) for p in s.params]
+        if not changed and now != declared:
+            changed = True
+            viol.append(("sd-conversion/declared-temperatures-changed/%s/%s" % (how, route),
+                         "%s: the components of the spectral density declared %r before the "
+                         "request and declare %r after it" % (where, declared, now), None))
+        ops_now = [[float(p.get("T", -1.0)) for p in o.params] for o in objs]
+        if ops_now != snap_ops:
+            viol.append(("sd-conversion/operand-declared-temperature-changed/%s/%s"
+                         % (how, route),
+                         "%s: the spectral densities the composite was added from declared "
+                         "%r before the request and declare %r after it"
+                         % (where, snap_ops, ops_now), None))
+            snap_ops = ops_now
+        if not numpy.array_equal(numpy.asarray(s.data), snap_data) \
+                or float(s.lamb) != snap_lamb or len(s.params) != len(declared):
+            viol.append(("sd-conversion/spectral-density-changed/%s/%s" % (how, route),
+                         "%s: data / reorganisation energy / number of components of the "
+                         "spectral density changed" % where, None))
+    return {"nontrivial": len(declared) >= 2, "violations": _finish(viol, "", axis_suffix(case)),
+            "outcome": [hs, outs]}
+
+
+def convert_cases(tier):
+    q = tier == "quick"
+    alpha = CONV_ALPHA[tier]
+    reqs = [None, CONV_T]
+    hists = []
+    for k in range(1, (2 if q else 3) + 1):
+        hists += [list(h) for h in itertools.product(reqs, repeat=k)]
+    builds = []
+    for t in expressions(alpha, 3, tier):
+        builds.append((["tree", t], len(built_leaves(t))))
+    for n in range(1, 4):
+        for sq in itertools.product(alpha, repeat=n):
+            builds.append((["list", list(sq)], n))
+    cs = []
+    for b, n in builds:
+        for temps in itertools.product(LIST_T, repeat=n):
+            for h in hists:
+                cs.append({"kind": "convert", "build": b, "temps": list(temps), "requests": h})
+    cs.sort(key=lambda c: (len(c["temps"]), len(c["requests"])))
+    return cs
+
+
+KINDS = {"list": eval_list, "ftsum": eval_ftsum, "measure": eval_measure,
+         "convert": eval_convert}
 
 
 def eval_case(case):
@@ -1230,9 +1744,9 @@ def admissible(tree):
     if isinstance(tree, str):
         return True
     op, l, r = tree
-    if has(l, "v") and op == "+":
+    if op == "+" and any(has(l, v) for v in VALUE_LEAVES):
         return False
-    if op == "+=" and r == "self" and has(l, "v"):
+    if op == "+=" and r == "self" and any(has(l, v) for v in VALUE_LEAVES):
         return False
     return admissible(l) and (r == "self" or admissible(r))
 
@@ -1344,6 +1858,9 @@ def tree_cases(tier):
 SECTIONS = [("addition-trees", tree_cases), ("list-built-composites", list_cases),
             ("sums-of-frequency-domain-parts", ftsum_cases),
             ("measurement-histories", measure_cases),
+            ("degenerate-operands", degenerate_cases),
+            ("frequency-axes", freqaxis_cases),
+            ("converted-composites", convert_cases),
             ("time-axes", timeaxis_cases)]
 
 
@@ -1366,6 +1883,12 @@ def run(run):
                 "every other time axis of the product step x window x (addition trees over the "
                 "core alphabet, list-built composites, sums of frequency-domain parts, "
                 "measurement histories); "
+                "operands with zero reorganisation energy (every tree / chain containing one, "
+                "refusals, measurement histories); spectral densities on every frequency axis of "
+                "the product (negative branch: equal / short / absent / long) x (with / without "
+                "w = 0) x grid, under addition trees and measurement histories; composite "
+                "spectral densities x declared temperature per component x history of conversion "
+                "requests with / without an explicit temperature; "
                 "non-trivial = at least two leaves / components / one mutation step")
     run.assumptions = ["components' own data (each built separately by the library) are the "
                        "additivity ledger; the analytic formulas themselves belong to C06",
@@ -1386,7 +1909,19 @@ def run(run):
                        "only added to a complex-valued left operand; FTCorrelationFunction of a "
                        "single component only (of a composite it is not part of the statement)",
                        "ftype variants that cannot be constructed at all (in internal units) are "
-                       "probed only: %r" % OPTIONAL]
+                       "probed only: %r" % OPTIONAL,
+                       "spectral density on a user-supplied frequency axis: measured == (1/pi) "
+                       "int J(w)/w dw over the part of [0, infinity) that the axis covers "
+                       "(reference model: closed form / adaptive quadrature of the analytic "
+                       "formulas), class Q tolerance 5e-4 (worst observed on the reference tree "
+                       "6.8e-5, UnderdampedBrownian at 3 points per line width; smallest effect to "
+                       "resolve 1.2e-2); axes end at w > 0",
+                       "the temperatures a spectral density declares are those given at "
+                       "construction; get_CorrelationFunction(temperature=T) applies T to that "
+                       "request only; converted data are compared with the sum of the separately "
+                       "converted components (the conversion is linear at a fixed temperature)",
+                       "zero-reorganisation-energy operands: the value-defined one has purely real "
+                       "data (declared and measured reorganisation energy 0)"]
     q = run.tier == "quick"
     run.bounds = {"max_leaves": 3 if q else 4, "time_axis": [NT, DT],
                   "time_axes": {"axes_length_step": axes(run.tier), "max_leaves": 3,
@@ -1398,7 +1933,14 @@ def run(run):
                   "list_built": {"max_components": 3 if q else 4, "temperatures": LIST_T,
                                  "max_components_all_ftypes": 3},
                   "ft_part_sums": {"max_leaves": 3 if q else 4},
-                  "measurement_histories": {"max_mutation_steps": 2 if q else 3}}
+                  "measurement_histories": {"max_mutation_steps": 2 if q else 3},
+                  "degenerate_operands": {"max_leaves": 3, "max_mutation_steps": 2},
+                  "frequency_axes": {"axes_kind_points_step": faxes(run.tier), "max_leaves": 3,
+                                     "max_mutation_steps": 1 if q else 2},
+                  "converted_composites": {"max_components": 3, "alphabet": CONV_ALPHA[run.tier],
+                                           "declared_temperatures": LIST_T,
+                                           "explicit_temperature": CONV_T,
+                                           "max_requests": 2 if q else 3}}
     import time
     t0 = time.time()
     cap = 55 if run.tier == "quick" else 720
